@@ -25,10 +25,17 @@ func checkAddressFromDeclaredThreshold(c *core.Ctx) {
 		if fn == nil {
 			continue
 		}
-		for _, ci := range ir.Calls(fn, func(ci ssa.CallInstruction) bool {
-			o := ir.CalleeObj(ci)
-			return o != nil && (o.Name() == "EncodeMultiPubKeyProgramInto" || o.Name() == "AddressFromMultiPubKeys")
-		}) {
+		// in the function or in a same-package helper it hands the entry to
+		hosts, releaseHosts := hostsWithHelpers(fn)
+		var derivs []ssa.CallInstruction
+		for _, host := range hosts {
+			derivs = append(derivs, ir.Calls(host, func(ci ssa.CallInstruction) bool {
+				o := ir.CalleeObj(ci)
+				return o != nil && (o.Name() == "EncodeMultiPubKeyProgramInto" || o.Name() == "AddressFromMultiPubKeys")
+			})...)
+		}
+		defer releaseHosts()
+		for _, ci := range derivs {
 			a := ci.Common().Args
 			keys, m := a[len(a)-2], a[len(a)-1]
 			n++
